@@ -21,7 +21,7 @@ TRUSTED = ["what `series.dtype == object` / isinstance(dtype, CategoricalDtype/S
            "captured in the regenerated oracle table, not proved"]
 ASSUMPTIONS = []
 
-TEXT = ["object", "str", "string[python]", "string[pyarrow]", "category", "category-shuffled", "category-extra"]
+TEXT = ["object", "str", "string[python]", "string[pyarrow]", "arrow[string]", "arrow[large_string]", "category", "category-shuffled", "category-extra"]
 NUMS = ["int8", "int16", "int32", "int64", "uint8", "uint16", "uint32", "uint64", "float32", "float64", "bool", "Int64", "Float64", "boolean"]
 FORMS = ["A", "A + a", "A:a", "A:B", "0 + A", "0 + A:a", "a + B"]
 
@@ -67,6 +67,8 @@ def run(ctx: Ctx):
         def text_series(vals, decl=None):
             if t.startswith("category"):
                 return pd.Series(pd.Categorical(vals, categories=decl or sorted(set(vals))))
+            if t.startswith("arrow["):       # pandas.ArrowDtype text columns (what reading parquet/csv with the pyarrow backend gives)
+                return pd.Series(vals, dtype=pd.ArrowDtype(pa.string() if t == "arrow[string]" else pa.large_string()))
             return pd.Series(vals, dtype=t)
         try:
             avals = [0, 1, 1, 0, 1, 0, 1, 1][:n] if nd in ("bool", "boolean") else [k + 1 for k in range(n)]
